@@ -752,12 +752,27 @@ void check_output(Verdict &v, const OutputCheck &oc, const std::vector<Line> &li
         *counts_out = count;
     // copies
     std::vector<const Call19 *> missing;
+    // messages for which the configured pattern yields an empty text (everything in it is conditional on
+    // another message type) are written as empty lines: they cannot be told apart, only counted
+    auto empty_text = [&](const Call19 &c) { return cfg.pattern == 6 && c.op->a != 1; };
+    int blank_want = 0, blank = 0;
+    for (auto &l : lines)
+        if (l.plain.empty())
+            blank++;
     for (auto &kv : calls) {
         const Call19 &c = kv.second;
         if (c.ret < 0)
             continue;
         int n = count.count(c.cid) ? count[c.cid] : 0;
         int want = c.passes ? oc.copies : 0;
+        if (oc.check_text && empty_text(c)) {
+            if (n > 0 && want > 0)
+                fail19(v, "wrong-format",
+                       oc.name + ": message " + mname(c) + " is written with its text although the message pattern yields an empty text for its type",
+                       "wrong-format/" + oc.name);
+            blank_want += want;
+            want = 0;
+        }
         if (n == want)
             continue;
         if (!c.passes && n > 0) {
@@ -783,6 +798,11 @@ void check_output(Verdict &v, const OutputCheck &oc, const std::vector<Line> &li
                    "missing-output/" + oc.name);
         }
     }
+    if (oc.check_text && (blank > blank_want || (blank < blank_want && !oc.tolerate_oldest_missing)))
+        fail19(v, blank > blank_want ? "duplicate-output" : "missing-output",
+               oc.name + ": " + std::to_string(blank) + " empty lines, expected " + std::to_string(blank_want)
+                       + " (messages whose formatted text is empty)",
+               std::string(blank > blank_want ? "duplicate-output/" : "missing-output/") + oc.name);
     for (const Call19 *m : missing) {
         bool older_present = false;
         for (auto &kv : calls)
@@ -1102,6 +1122,8 @@ Verdict judge_c19(const Plan &plan, const sim::Shm *shm, const ChildExit &, cons
         for (auto &kv : calls) {
             if (!kv.second.passes || kv.second.ret < 0)
                 continue;
+            if (cfg.pattern == 6 && kv.second.op->a != 1)
+                continue; // written as an empty line: not attributable
             int n = ncol.count(kv.first) ? ncol[kv.first] : 0;
             int lo = (cfg.n_stderr && cfg.stderr_colour) ? 1 : 0;
             int hi = lo + ((cfg.n_platform && cfg.tty2) ? 1 : 0); // the platform sink's colouring is not specified
